@@ -182,7 +182,7 @@ func VerifC06SelfResolve() {
 	if err != nil {
 		return
 	}
-	baseStr := selfBases[vnd.Pick(vnd.Param("C06.SelfBases", 4, 13))]
+	baseStr := selfBases[vnd.Pick(vnd.Param("C06.SelfBases", 4, 4))]
 	r, rerr := ParseRef(baseStr, u.Href(false))
 	verifCheckSameResult(r, rerr, u, nil, "the serialization of a URL does not resolve to itself against a base")
 }
